@@ -35,7 +35,7 @@ func (x *Exec) snap() scriptSnap {
 }
 
 func (x *Exec) restore(s scriptSnap) {
-	x.sc.lines = x.sc.lines[:s.nlines]
+	x.sc.truncate(s.nlines)
 	x.sc.obs = x.sc.obs[:s.nobs]
 	x.sc.seen = s.seen
 	x.obSeq = s.obSeq
@@ -196,7 +196,21 @@ func (x *Exec) loopEnv(fr *Frame, li *loopInfo, phiVals map[*ssa.Phi]Val, st *St
 			env.vars[phi.Comment] = v
 		}
 	}
+	if le := fr.loopEntry[li.head]; le != nil {
+		ee := x.baseEnv(fr, le.st)
+		for phi, v := range le.phis {
+			if phi.Comment != "" {
+				ee.vars[phi.Comment] = v
+			}
+		}
+		env.entry = ee
+	}
 	return env
+}
+
+type loopEntryInfo struct {
+	st   *State
+	phis map[*ssa.Phi]Val
 }
 
 func (x *Exec) enterLoop(fr *Frame, b *ssa.BasicBlock, li *loopInfo, ins []edgeState) {
@@ -205,6 +219,10 @@ func (x *Exec) enterLoop(fr *Frame, b *ssa.BasicBlock, li *loopInfo, ins []edgeS
 	for _, phi := range headPhis(b) {
 		entryPhis[phi] = x.phiVal(fr, phi, b, ins)
 	}
+	if fr.loopEntry == nil {
+		fr.loopEntry = map[*ssa.BasicBlock]*loopEntryInfo{}
+	}
+	fr.loopEntry[b] = &loopEntryInfo{st: x.st.clone(), phis: entryPhis}
 	// 1. invariant holds on entry
 	terms, clauses := x.loopInvTerms(fr, li, entryPhis, x.st)
 	for i, t := range terms {
@@ -255,8 +273,28 @@ func (x *Exec) enterLoop(fr *Frame, b *ssa.BasicBlock, li *loopInfo, ins []edgeS
 			}
 		}
 	}
+	// 2b. the unit's frame condition is an implicit invariant of every loop
+	var wk []string
+	for k := range w {
+		wk = append(wk, k)
+	}
+	sort.Strings(wk)
+	if len(x.scratches) == 0 {
+		for _, k := range wk {
+			if cur, ok := x.st.heap[k]; ok {
+				if g := x.frameGoal(k, cur); g != nil {
+					x.oblige("inv-entry", loopDetail(li)+"/frame", x.frameProps, g, "frame: only listed locations of "+k+" changed so far")
+				}
+			}
+		}
+	}
 	// 3. havoc and assume the invariant
 	x.havocLoop(fr, b, w)
+	for _, k := range wk {
+		if g := x.frameGoal(k, x.st.heap[k]); g != nil {
+			x.assumeHere(g)
+		}
+	}
 	nowPhis := map[*ssa.Phi]Val{}
 	for _, phi := range headPhis(b) {
 		nowPhis[phi] = fr.env[phi]
@@ -265,7 +303,7 @@ func (x *Exec) enterLoop(fr *Frame, b *ssa.BasicBlock, li *loopInfo, ins []edgeS
 	x.assumeHere(and(terms...))
 	// 4. measure at the head
 	snapSt := x.st.clone()
-	hs := &headSnapshot{st: snapSt}
+	hs := &headSnapshot{st: snapSt, wkeys: wk}
 	if li.spec != nil {
 		for _, cl := range li.spec.clauses("decreases") {
 			env := x.loopEnv(fr, li, nowPhis, x.st)
@@ -362,6 +400,15 @@ func (x *Exec) backEdge(fr *Frame, from, head *ssa.BasicBlock, st *State) {
 	terms, clauses := x.loopInvTerms(fr, li, phiVals, st)
 	for i, t := range terms {
 		x.oblige("inv-preserved", loopDetail(li), clauseProps(clauses[i], li.spec), t, clauses[i].Text)
+	}
+	if hs := fr.headSnap[head]; hs != nil && len(x.scratches) == 0 {
+		for _, k := range hs.wkeys {
+			if cur, ok := st.heap[k]; ok {
+				if g := x.frameGoal(k, cur); g != nil {
+					x.oblige("inv-preserved", loopDetail(li)+"/frame", x.frameProps, g, "frame: only listed locations of "+k+" change")
+				}
+			}
+		}
 	}
 	if hs := fr.headSnap[head]; hs != nil && li.spec != nil && len(hs.measure) > 0 {
 		var now []*Term
